@@ -234,6 +234,37 @@ func c18R1(r *Report) {
 			r.Check(okPort, "R1", key+"/port-only-normal-unproxied", cs.Pos(), "a port is advertised to the DHT only without a proxy and in normal mode", "the port passed to dht.Announce can be non-zero outside `!hasProxy() && dhtMode >= DhtNormal`: "+why)
 		}
 		r.Sentinel("R1.dht.Announce", len(calls), 1)
+		// the initial announce in AddTorrent is made for the torrent that was actually added: it comes after the
+		// statement that starts the torrent's loop, which is only reached when the torrent was entered in the table
+		// (a rejected duplicate carries the global default mode, not the mode the user gave the torrent it duplicates)
+		ann := p.Func("tor", "Torrent.announce")
+		add := p.Func("tor", "AddTorrent")
+		run := p.Func("tor", "Torrent.run")
+		if ann != nil && add != nil && run != nil {
+			var starts []ssa.Instruction
+			allInstrs(add, func(in ssa.Instruction) {
+				if g, ok := in.(*ssa.Go); ok {
+					if fn := g.Call.StaticCallee(); fn != nil && (fn == run || anyInstr(fn, func(i ssa.Instruction) bool { return calleeOf(i) == run }) != nil) {
+						starts = append(starts, in)
+					}
+				}
+			})
+			acalls, _ := p.callSitesOf(ann)
+			for _, cs := range acalls {
+				if cs.Parent() != add {
+					continue
+				}
+				in := cs.(ssa.Instruction)
+				okD := false
+				for _, st := range starts {
+					if instrDominates(st, in) {
+						okD = true
+					}
+				}
+				r.Check(okD, "R1", "AddTorrent/announce-after-loop-start", cs.Pos(), "the initial DHT announce is made only once the torrent has been added and its loop started",
+					"AddTorrent announces to the DHT on a path that has not passed the statement that starts the torrent's loop: the announce is made even for a duplicate that is then rejected — with the global default DHT mode, although the user set the existing torrent's mode to none")
+			}
+		}
 	}
 	// ---- (b) Tracker.Announce (interface invoke)
 	{
@@ -529,7 +560,29 @@ func c18R2(r *Report) {
 				}
 				switch {
 				case named.Name() == "New" && isLit:
-					r.Ok("R2", key, acc.Instr.Pos(), "initialised at construction")
+					// … from the global default of the same switch (a torrent that nobody reconfigures lives with it)
+					want := map[string]string{"dhtMode": "DefaultDhtMode", "useTrackers": "DefaultUseTrackers", "useWebseeds": "DefaultUseWebseeds"}[fld]
+					got := ""
+					for _, ref := range *fa.Referrers() {
+						if st, ok := ref.(*ssa.Store); ok && st.Addr == ssa.Value(fa) {
+							if ld, okl := st.Val.(*ssa.UnOp); okl && ld.Op == token.MUL {
+								if g, okg := ld.X.(*ssa.Global); okg {
+									got = g.Name()
+								}
+							}
+							if _, isC := st.Val.(*ssa.Const); isC {
+								got = "constant"
+							}
+						}
+					}
+					switch {
+					case got == want:
+						r.Ok("R2", key, acc.Instr.Pos(), "initialised at construction from config.%s", want)
+					case strings.HasPrefix(got, "Default"):
+						r.Fail("R2", key, acc.Instr.Pos(), "a new torrent's %s is initialised from config.%s, the global default of another switch: with differing defaults (-use-trackers without -use-webseeds) the torrent contacts what the user disabled until somebody reconfigures it", fld, got)
+					default:
+						r.Ok("R2", key, acc.Instr.Pos(), "initialised at construction")
+					}
 				case named == he:
 					r.Ok("R2", key, acc.Instr.Pos(), "written by the event handler")
 					for _, ref := range *fa.Referrers() {
